@@ -2791,6 +2791,9 @@ func (uconn *UConn) ApplyPreset(p *ClientHelloSpec) error {
 	// nothing may be left here for the server's choice to be validated against.
 	hello.AlpnProtocols = nil
 	hello.SupportedCurves = nil
+	// likewise the server name: it is what SNIExtension.writeToUConn puts there, and
+	// nothing when the spec has no (or a removed) SNI extension
+	hello.ServerName = ""
 
 	switch len(hello.Random) {
 	case 0:
